@@ -1,6 +1,6 @@
 (* Props/C14.v -- property C14: a sips: target is never sent in clear; target and transport selection are sound *)
 From Coq Require Import List NArith Bool.
-From EZK Require Import Model.Forms8 Proofs.Forms8 Model.C14 Proofs.C14.
+From EZK Require Import Model.Forms10 Proofs.Forms10 Gen.Tables Model.Forms8 Proofs.Forms8 Model.C14 Proofs.C14.
 Import ListNotations.
 Open Scope N_scope.
 
@@ -56,3 +56,13 @@ Proof. exact literal_here. Qed.
 
 Theorem C14_canonical_literal_refuted : literal_dest_form false (true, mapped_base + 3221225985) = (false, 3221225985).
 Proof. exact mapped_literal_changes_family. Qed.
+
+(* "reused in preference to opening a new one": a factory is asked to connect only when no existing transport qualified *)
+Theorem C14_connect_guard : Tables.connect_only_when_none_found = true.
+Proof. reflexivity. Qed.
+
+Theorem C14_no_connect_when_found : Tables.connect_only_when_none_found = true -> connects true = false /\ connects false = true.
+Proof. exact connects_here. Qed.
+
+Theorem C14_eager_connect_refuted : connects_form false true = true.
+Proof. exact connects_eagerly. Qed.
